@@ -105,8 +105,9 @@ def has_empty_component(name: str) -> bool:
 class Model:
     name = 'c11'
 
-    def __init__(self) -> None:
-        self.params = {}
+    def __init__(self, kind: str = 'dict') -> None:
+        self.kind = kind
+        self.params = {'kind': kind}
         self._alpha = driver_alphabet()
         for e in self._alpha:
             e['name'] = name_of(e)
@@ -115,8 +116,14 @@ class Model:
         return self._alpha
 
     def new(self):
-        w = DictWorld(users={'alice': ('pw', ())})
+        if self.kind == 'dict':
+            w = DictWorld(users={'alice': ('pw', ())})
+        else:
+            from ..worlds import MaildirWorld
+            w = MaildirWorld(layout=self.kind, users={'alice': ('pw', ())},
+                             jail_cheap=True)
         ctx = Ctx(w)
+        ctx.extra['hist'] = []
         for si in (0, 1, 2):
             ctx.connect()
             assert ctx.do(si, b'LOGIN alice pw').cond == 'OK'
@@ -216,6 +223,16 @@ class Model:
             elif n.endswith('/') and n != '/':
                 exp_conds = {'OK', 'NO'}
                 strict = False
+            elif self.kind != 'dict' and '/' in n and (not all(
+                    m.exists('/'.join(n.split('/')[:k]))
+                    for k in range(1, n.count('/') + 1))
+                    or n.split('/')[0].upper() == 'INBOX'):
+                # the maildir layouts want superior folders to exist
+                # (creating superior names is a SHOULD in RFC 3501 6.3.3)
+                exp_conds = {'OK', 'NO'}
+                if cond == 'OK':
+                    new_names.add(n)
+                strict = False
             else:
                 new_names.add(n)
         elif op == 'DELETE':
@@ -228,6 +245,10 @@ class Model:
                 strict = False
             else:
                 new_names.discard(n)
+        elif op == 'RENAME' and names[0] == names[1] and \
+                m.exists(names[0]) and names[0].upper() != 'INBOX':
+            # onto itself: refusing (the target exists) or a no-op
+            exp_conds = {'OK', 'NO'}
         elif op == 'RENAME':
             a, b = names
             collide = False
@@ -263,7 +284,14 @@ class Model:
                     ident_moves[new] = old
         elif op == 'SUBSCRIBE':
             n = names[0]
-            if m.exists(n):
+            if self.kind != 'dict' and (n != n.strip() or '\r' in n
+                                        or '\n' in n):
+                # the maildir subscriptions file holds one name per line:
+                # a name it cannot hold may be refused
+                exp_conds = {'OK', 'NO'}
+                if cond == 'OK':
+                    new_subs.add(m.canon(n) if m.exists(n) else n)
+            elif m.exists(n):
                 new_subs.add(m.canon(n))
             else:
                 # RFC 3501 6.3.6: the server MAY validate the name; when it
@@ -278,6 +306,12 @@ class Model:
             n = names[0]
             if not m.exists(n):
                 exp_conds = {'NO'}
+        if self.kind != 'dict' and op == 'RENAME' and '/' in names[1] and (
+                not all(m.exists('/'.join(names[1].split('/')[:k]))
+                        for k in range(1, names[1].count('/') + 1))
+                or names[1].split('/')[0].upper() == 'INBOX'):
+            # maildir: the superior folders of the new name must exist
+            exp_conds = exp_conds | {'NO'}
         if outside_model:
             exp_conds = {'OK', 'NO', 'BAD'}
             strict = False
@@ -287,6 +321,13 @@ class Model:
         if cond not in exp_conds:
             if cond == 'BAD' and exp_conds == {'NO'}:
                 pass        # refusal either way
+            elif self.kind != 'dict' and op == 'RENAME' and \
+                    names[0].upper() == 'INBOX' and cond == 'NO' and \
+                    b'not supported' in (st.tagged.text or b''):
+                out.append(Violation(
+                    'rename-inbox-unsupported', 'maildir:RENAME INBOX',
+                    f'{site}: answered NO {st.tagged.text!r}: the maildir '
+                    f'backend cannot rename INBOX'))
             else:
                 out.append(Violation('result.condition', site,
                            f'{site}: answered {cond} {st.tagged.text!r}, '
@@ -442,10 +483,14 @@ class Model:
         return out
 
     def apply(self, ctx, i):
+        ctx.extra['hist'].append(i)
         return self.exec_cmd(ctx, self._alpha[i])
 
     def key(self, ctx):
         m = ctx.extra['ns']
+        if self.kind != 'dict':
+            # real files: no state abstraction, histories are not merged
+            return (tuple(ctx.extra['hist']), tuple(sorted(m.names)))
         return (dict_world_key(ctx.world), tuple(sorted(m.names)),
                 tuple(sorted(m.subscribed)))
 
@@ -467,6 +512,16 @@ _R = None
 _MU = None
 
 
+# findings that are the same on every backend keep their site
+_SHARED_SITES = {('lsub.extra', 'INBOX'), ('lsub.missing', 'deleted-mailbox')}
+
+
+def _prefix(m, v):
+    if m.kind != 'dict' and (v['rule'], v['site']) not in _SHARED_SITES \
+            and not v['site'].startswith('maildir:'):
+        v['site'] = m.kind + ':' + v['site']
+
+
 def _level2(history):
     m: Model = _M
     out = []
@@ -477,8 +532,9 @@ def _level2(history):
             vs = m.exec_cmd(ctx, d)
             evals += 1
             for v in vs:
-                v['replay'] = {'model': 'c11', 'params': {},
+                v['replay'] = {'model': 'c11', 'params': m.params,
                                'history': list(history), 'probe': d}
+                _prefix(m, v)
             out += vs
     finally:
         m.close(ctx)
@@ -488,28 +544,28 @@ def _level2(history):
             vs = m.exec_cmd(ctx, d)
             evals += 1
             for v in vs:
-                v['replay'] = {'model': 'c11', 'params': {},
+                v['replay'] = {'model': 'c11', 'params': m.params,
                                'history': list(history), 'probe': d}
+                _prefix(m, v)
             out += vs
         finally:
             m.close(ctx)
     return out, evals
 
 
-def run(*, tier, seed, jobs, progress, opts):
+def _plan(kind, depth, cap, *, tier, seed, jobs, progress, t0):
     global _M, _R, _MU
-    t0 = time.perf_counter()
-    depth = int(opts.get('depth', 3 if tier == 'quick' else 4))
-    m = Model()
+    m = Model(kind)
     res = bfs(m, depth, jobs=jobs, seed=seed, progress=progress)
     if res.errors:
         print(res.errors[0])
         raise RuntimeError('harness error during exploration')
     violations = list(res.violations)
+    for v in violations:
+        _prefix(m, v)
     _M = m
     _R, _MU = probe_alphabet()
     hist = sorted(res.state_histories, key=lambda h: (len(h), h))
-    cap = int(opts.get('max_states', 250 if tier == 'quick' else 100000))
     capped = len(hist) > cap
     hist = hist[:cap]
     evals = 0
@@ -520,36 +576,72 @@ def run(*, tier, seed, jobs, progress, opts):
             violations += vs
             evals += ev
             if progress and k % 50 == 0:
-                print(f'  level2: {k}/{len(hist)} states, {evals} probes, '
-                      f'{len(violations)} violations, '
+                print(f'  level2[{kind}]: {k}/{len(hist)} states, {evals} '
+                      f'probes, {len(violations)} violations, '
                       f't={time.perf_counter() - t0:.0f}s', flush=True)
     c = res.coverage(m)
-    cov = {k: c[k] for k in ('states', 'depth_completed', 'frontier_sizes',
-                             'state_cap_hit')}
+    cov = {'backend': kind, 'depth': depth,
+           **{k: c[k] for k in ('states', 'depth_completed',
+                                'frontier_sizes', 'state_cap_hit')}}
     cov['transitions'] = c['transitions'] + evals
+    cov['probe_executions'] = evals
+    cov['states_probed'] = len(hist)
+    cov['states_probed_capped'] = capped
+    cov['samples'] = [[e['name'] for e in s] for s in c['samples'][:3]]
+    return violations, cov, m
+
+
+def run(*, tier, seed, jobs, progress, opts):
+    from ..worlds import scratch_parent
+    t0 = time.perf_counter()
+    if 'depth' in opts:
+        plans = [(opts.get('kind', 'dict'), int(opts['depth']),
+                  int(opts.get('max_states', 100000)))]
+    elif tier == 'quick':
+        plans = [('dict', 3, 250), ('++', 2, 14), ('fs', 2, 14)]
+    else:
+        plans = [('dict', 4, 100000), ('++', 2, 100000), ('fs', 2, 100000)]
+    violations = []
+    cov = {'plans': [], 'states': 0, 'transitions': 0}
+    with scratch_parent():
+        for kind, depth, cap in plans:
+            vs, c, m = _plan(kind, depth, cap, tier=tier, seed=seed,
+                             jobs=jobs, progress=progress, t0=t0)
+            violations += vs
+            cov['plans'].append(c)
+            cov['states'] += c['states']
+            cov['transitions'] += c['transitions']
     cov['traces_validated_against_impl'] = cov['transitions']
     cov['driver_alphabet'] = [e['name'] for e in m.alphabet()]
     cov['probe_reads'] = len(_R)
     cov['probe_mutations'] = len(_MU)
-    cov['probe_executions'] = evals
-    cov['states_probed'] = len(hist)
-    cov['states_probed_capped'] = capped
-    cov['samples'] = [[e['name'] for e in s] for s in c['samples'][:3]] + \
+    cov['samples'] = cov['plans'][0]['samples'] + \
         [name_of(p) for p in (_R + _MU)[::41]]
-    cov['exhaustive'] = not capped
-    cov['rule'] = ('level 1: BFS over driver sequences <= depth; level 2: '
-                   'every LIST/LSUB/STATUS probe and every hostile '
-                   'CREATE/DELETE/RENAME/SUBSCRIBE probe in every reached '
-                   'state (shortest histories first when capped)')
+    cov['exhaustive'] = not any(c['states_probed_capped'] and
+                                c['backend'] == 'dict' for c in cov['plans'])
+    cov['rule'] = ('per backend - level 1: BFS over driver sequences <= depth '
+                   '(dict: canonical-state dedup; maildir: real files, no '
+                   'dedup); level 2: every LIST/LSUB/STATUS probe and every '
+                   'hostile CREATE/DELETE/RENAME/SUBSCRIBE probe in every '
+                   'reached state (shortest histories first when capped: '
+                   'maildir quick probes the states within 1 command)')
     return finish(PROP, tier=tier, seed=seed, level='model_checking',
                   coverage=cov, violations=violations, t0=t0, assumptions=[
-                      'dict backend; tolerances of DESIGN.md section 3 C11',
-                      'names with empty components are outside the model'])
+                      'tolerances of DESIGN.md section 3 C11',
+                      'names with empty components are outside the model',
+                      'maildir: names the filesystem layout cannot store may '
+                      'be refused'])
 
 
 def replay(rec):
+    from ..worlds import scratch_parent
+    with scratch_parent():
+        return _replay(rec)
+
+
+def _replay(rec):
     r = rec['replay']
-    m = Model()
+    m = Model(**(r.get('params') or {}))
     if 'probe' in r:
         ctx = replay_hist(m, r['history'])
         print('HISTORY', [m.alphabet()[i]['name'] for i in r['history']])
